@@ -458,6 +458,24 @@ def execute(plan, monitor_classes=(), wall_s=60.0, keep_log=True, pre_hook=None)
                 cfg = build_config(plan)
                 tree = SimDemeTree(cfg)
                 tree.run()
+                if plan.get("rerun_after_return"):
+                    tree.run()  # calling run() on a finished tree: the condition holds, nothing may happen
+                    w.fire("run-called-again")
+                w.result = tree
+            elif entry == "steps":
+                # the user drives the tree himself, one metaepoch at a time
+                cfg = build_config(plan)
+                tree = SimDemeTree(cfg)
+
+                def _stop():
+                    w.manual_boundary = True
+                    try:
+                        return tree._gsc(tree)
+                    finally:
+                        w.manual_boundary = False
+
+                while not _stop():
+                    tree.run_step()
                 w.result = tree
             elif entry == "hms":
                 cfg = build_config(plan)
